@@ -119,6 +119,17 @@ def skeleton(eng, name, P):
         t = pick(eng, 't', [T1, T2])
         return [[('BF', t, {'mode': 'ok', 'cmp': pick(eng, 'c', ['METADATA', 'HASH'])}, [q_hole(eng, '0', ['read_m', 'read_h'], [IN])]),
                  ('SB', 's', {}, [q_hole(eng, '1', ['read_m', 'read_h', 'get_size'], [t])])]]
+    if name == 'A8b':
+        # a directory tree of outputs of one build becomes a single output file in the next (and back)
+        first = eng.choose('first', 2)
+        b1 = [('BF', 'o/d/e/h', {'mode': 'ok'}, []), ('BF', T2, {'mode': 'ok'}, [])]
+        b2 = [('BF', TS, bf_opts(eng, '0', ['ok', 'raise_after'], catch=P.get('catch', True)), [])]
+        tail = [q_hole(eng, '0', kinds, [P1, TS])]
+        return [b1 + tail, b2 + tail] if first == 0 else [b2 + tail, b1 + tail]
+    if name == 'CD':
+        # outputs inside the directory that holds the cache file
+        return [[('BF', 'c/x', bf_opts(eng, '0', ['ok', 'raise_before', 'raise_after'], catch=True), []),
+                 ('BF', 'c/sub/y', bf_opts(eng, '1', ['ok', 'raise_after'], catch=True), [])]]
     if name == 'S1':
         # a (failing, caught) build_file on a path that a later build_file of the same build uses as a directory
         return [[('BF', TS, bf_opts(eng, '0', FAIL_MODES[:2] + ['ok'], catch=True), []),
